@@ -10,6 +10,7 @@ import XsVerif.Lemmas.Incl
 import XsVerif.Model.Restriction
 import XsVerif.Props.C16
 import XsVerif.Lemmas.Facets
+import XsVerif.Lemmas.AttrRestriction
 
 namespace XsVerif.Props.C14
 open XsVerif XsVerif.Rx XsVerif.CM XsVerif.Wildcard XsVerif.Restr
@@ -528,4 +529,99 @@ example : accepts [({ minExc := some ⟨{ ord := 5 }, false⟩ } : FSet Int)] { 
   decide
 end
 
+/-! ## Attribute uses and attribute wildcards of a complex type derived by restriction
+    (attributes.py:508-611; validation = the C03 model of `XsdAttributeGroup.raw_decode`) -/
+section Attrs
+open XsVerif.Wildcard XsVerif.Attributes XsVerif.AttrRestr
+
+/-- "restricted attribute uses and wildcards admit a subset of attribute sets".
+    Full statement (false for the code, see the three counterexamples below):
+      accepted R env B D → ∀ A, validFor … (merged B D) A → validFor … B A
+    Proved under three decidable guards, each of which excludes exactly one way in which the code (two of
+    them: XSD itself) accepts a widening:
+      g1  no attribute that can occur is exempt from the type-derivation clause           (C14-F4)
+      g2  no attribute prohibited by the restriction, declared by the base, is admitted by the
+          derived type's wildcard                                                           (C14-F2)
+      g3  an attribute declared by the restriction and admitted by the base wildcard only is not
+          assessed by that wildcard (skip, or lax without a global declaration)             (C14-F5)
+    `hsem`: the two facts about simple types the rules rely on (restriction narrows; equal normalised
+    fixed values denote the same constraint) — C02's business, parameters here.  `hB`: the value
+    constraints of the base type are valid for their own types (checked when the attribute is built).
+    Any number of attributes, any wildcards (C16 model, all XSD 1.1 features), any instance. -/
+theorem attr_restriction_sound_partial (R : RCtx) (s : Sem) (env : Env) (o : Opts)
+    (ho : o.legacy = false) (B D : Group) (hsem : TypeSem R s)
+    (hndB : (B.decls.map (·.name)).Nodup) (hndD : (D.decls.map (·.name)).Nodup)
+    (hacc : accepted R env B D = true)
+    (g1 : noAnyExempt R D = true) (g2 : noProhibitedThroughWildcard env B D = true)
+    (g3 : wildcardDoesNotAssess env B D = true)
+    (hB : ∀ b ∈ B.decls, ∀ v, constraintOf o b = some v → declErrs s b b.name v = [])
+    (A : List Attr) (hxA : ∀ a ∈ A, a.1.ns ≠ xsiNs)
+    (h : validFor s env o (merged B D) A = true) : validFor s env o B A = true :=
+  AttrRestr.attr_restriction_sound_partial R s env o ho B D hsem hndB hndD hacc g1 g2 g3 hB A hxA h
+
+/-- every attribute the base type requires is required by the derived type -/
+theorem attr_required_preserved (R : RCtx) (env : Env) (B D : Group)
+    (hndB : (B.decls.map (·.name)).Nodup) (hndD : (D.decls.map (·.name)).Nodup)
+    (hacc : accepted R env B D = true) (b : Decl) (hb : b ∈ B.decls) (hreq : b.use = .required) :
+    ∃ d ∈ (merged B D).decls, d.name = b.name ∧ d.use = .required :=
+  required_preserved R env B D hndB hndD hacc b hb hreq
+
+/-- the attribute wildcard of the derived type (declared, or the emptied copy of the base wildcard when
+    the restriction declares none) admits a subset of the names the base wildcard admits — through the
+    C16 theorem `restriction_sound`, for wildcards of any target namespaces -/
+theorem attr_wildcard_narrows (R : RCtx) (env : Env) (B D : Group) (hacc : accepted R env B D = true)
+    (n : QN) (hx : n.ns ≠ xsiNs) (h : mergedAdmits env B D n = true) : baseAdmits env B n = true :=
+  wildcard_narrows R env B D hacc n hx h
+
+/-! concrete witnesses (replayed on the real code by the harness): type 0 = xs:integer-like (valid
+    values "1", "2"), type 1 = xs:string-like, type 2 = xs:anySimpleType -/
+def semT : Sem := { validT := fun t v => t != 0 || v == "1" || v == "2", valueEq := fun _ a b => a == b }
+def RT : RCtx := { tyDerived := fun d b => d == b || b == 2, tyIsAnySimple := fun t => t == 2, norm := fun _ x => x }
+def envT : Env := { globals := [], loaded := ["", "urn:t"] }
+def qAt : QN := ⟨"", "a"⟩
+def anyLax : AnyAttr := { wc := { ns := .any, tns := "urn:t" }, pc := .lax }
+def anyStrict : AnyAttr := { wc := { ns := .any, tns := "urn:t" }, pc := .strict }
+
+/-- C14-F2 (guard g2): the restriction prohibits `a` and keeps a lax ##any wildcard: `a="x"` is
+    validated through the wildcard for the derived type, against xs:integer for the base type -/
+theorem attr_prohibited_wildcard_counterexample :
+    let B : Group := ⟨[{ name := qAt, ty := 0 }], some anyLax⟩
+    let D : Group := ⟨[{ name := qAt, ty := 0, use := .prohibited }], some anyLax⟩
+    accepted RT envT B D = true ∧ noProhibitedThroughWildcard envT B D = false ∧
+    validFor semT envT {} (merged B D) [(qAt, "x")] = true ∧ validFor semT envT {} B [(qAt, "x")] = false := by
+  decide
+
+/-- C14-F4 (guard g1): the restriction redeclares `a` with type xs:anySimpleType over xs:integer;
+    accepted by the pinned rule (`anyExempt = true`), refused by the repaired one -/
+theorem attr_anysimpletype_counterexample :
+    let B : Group := ⟨[{ name := qAt, ty := 0 }], none⟩
+    let D : Group := ⟨[{ name := qAt, ty := 2 }], none⟩
+    accepted RT envT B D = true ∧ noAnyExempt RT D = false ∧
+    accepted { RT with anyExempt := false } envT B D = false ∧
+    validFor semT envT {} (merged B D) [(qAt, "x")] = true ∧ validFor semT envT {} B [(qAt, "x")] = false := by
+  decide
+
+/-- C14-F5 (guard g3): the base type admits `a` through a strict wildcard only (no global declaration:
+    invalid), the restriction declares it locally (valid) -/
+theorem attr_strict_wildcard_counterexample :
+    let B : Group := ⟨[], some anyStrict⟩
+    let D : Group := ⟨[{ name := qAt, ty := 0 }], none⟩
+    accepted RT envT B D = true ∧ wildcardDoesNotAssess envT B D = false ∧
+    validFor semT envT {} (merged B D) [(qAt, "1")] = true ∧ validFor semT envT {} B [(qAt, "1")] = false := by
+  decide
+
+/-! non-vacuity: a restriction that tightens the use, narrows the type, fixes the value and narrows the
+    wildcard meets every hypothesis of `attr_restriction_sound_partial` -/
+example :
+    let B : Group := ⟨[{ name := qAt, ty := 2 }, { name := ⟨"", "b"⟩, ty := 1, use := .required }], some anyLax⟩
+    let D : Group := ⟨[{ name := qAt, ty := 0, use := .required, fixed := some "1" }],
+                      some { wc := { ns := .set ["urn:o"], tns := "urn:t" }, pc := .lax }⟩
+    accepted RT envT B D = true ∧ noAnyExempt RT D = true ∧ noProhibitedThroughWildcard envT B D = true ∧
+    wildcardDoesNotAssess envT B D = true ∧
+    validFor semT envT {} (merged B D) [(qAt, "1"), (⟨"", "b"⟩, "z"), (⟨"urn:o", "k"⟩, "v")] = true ∧
+    validFor semT envT {} (merged B D) [(qAt, "2"), (⟨"", "b"⟩, "z")] = false := by decide
+example : TypeSem RT semT :=
+  ⟨by intro d b v h hv; simp [RT, semT] at *; grind, by intro d b v df bf _ h _ hv; simp [RT, semT] at *; grind⟩
+
+end Attrs
 end XsVerif.Props.C14
